@@ -16,7 +16,7 @@ import ast
 from ..core import walk_own, norm, is_self_attr, AnalysisError
 from ..report import Ob, Floor
 from ..rules.effect import EffectIndex, OptionInfluence
-from ..rules import twin, globalstate
+from ..rules import twin, globalstate, direction, memo, plumb
 from .. import exceptions
 from .c18 import writer_obligations
 
@@ -119,6 +119,10 @@ def check(ctx, tier):
     obs += twin.check_pairs(ctx, "D-a", "C13")
     # D-f: the file sink receives exactly the lines the string sink receives (output file vs string)
     obs += ctx.attempt(writer_obligations, ctx, "D-f", default=[])
+    obs += ctx.attempt(lambda c, cl: direction.explicit_direction(c, cl)[0], ctx, "D-g", default=[])
+    obs += ctx.attempt(lambda c, cl: memo.check(c, cl)[0], ctx, "D-g", default=[])
+    o_opt, n_opt = ctx.attempt(plumb.all_options, ctx, "D-h", default=([], 0))
+    obs += o_opt
     exceptions.apply(obs)
     floors = [Floor("option control sites examined", nsites, 30), Floor("OR construction sites", len(sites), 1),
               Floor("classes examined for class-level state", n_glob, 60)]
